@@ -213,19 +213,39 @@ func (p *Policy) Assemble() ([]bpf.Instruction, error) {
 		p.arch = arch
 	}
 
-	// Build the syscall filters.
-	var instructions []bpf.Instruction
+	// Build the syscall filters. The checks of all groups are assembled into one program, so that
+	// a syscall that is not matched by a group is checked by the next group.
+	rules := NewProgram()
+	var actionLabels []Label
+	var actions []Action
 	for _, group := range p.Syscalls {
 		if group.arch == nil {
 			group.arch = p.arch
 		}
 
-		groupInsts, err := group.Assemble(p.DefaultAction)
+		if len(group.Names) == 0 && len(group.NamesWithCondtions) == 0 {
+			continue
+		}
+
+		action, err := group.assembleChecks(&rules)
 		if err != nil {
 			return nil, err
 		}
+		actionLabels = append(actionLabels, action)
+		actions = append(actions, group.Action)
+	}
 
-		instructions = append(instructions, groupInsts...)
+	// No group matched.
+	rules.Ret(p.DefaultAction)
+
+	for i, action := range actionLabels {
+		rules.SetLabel(action)
+		rules.Ret(actions[i])
+	}
+
+	instructions, err := rules.Assemble()
+	if err != nil {
+		return nil, err
 	}
 
 	// Filter out x32 to prevent bypassing blacklists by using the 32-bit ABI.
@@ -241,8 +261,9 @@ func (p *Policy) Assemble() ([]bpf.Instruction, error) {
 
 	program = append(program, bpf.LoadAbsolute{Off: archOffset, Size: sizeOfUint32})
 
-	// If the loaded arch ID is not equal p.arch.ID, jump to the final Ret instruction.
-	jumpN := len(x32Filter) + len(instructions) - 1
+	// If the loaded arch ID is not equal p.arch.ID, jump to the Ret instruction of the default action.
+	// It is followed by one Ret instruction per group.
+	jumpN := len(x32Filter) + len(instructions) - len(actions)
 	if jumpN <= 255 {
 		program = append(program, bpf.JumpIf{Cond: bpf.JumpNotEqual, Val: uint32(p.arch.ID), SkipTrue: uint8(jumpN)})
 	} else {
@@ -351,17 +372,11 @@ func (g *SyscallGroup) Assemble(defaultAction Action) ([]bpf.Instruction, error)
 		return nil, nil
 	}
 
-	// Validate the syscalls.
-	syscalls, err := g.toSyscallsWithConditions()
-	if err != nil {
-		return nil, err
-	}
-
 	p := NewProgram()
 
-	action := p.NewLabel()
-	for _, syscall := range syscalls {
-		syscall.Assemble(&p, action)
+	action, err := g.assembleChecks(&p)
+	if err != nil {
+		return nil, err
 	}
 
 	p.Ret(defaultAction)
@@ -370,6 +385,22 @@ func (g *SyscallGroup) Assemble(defaultAction Action) ([]bpf.Instruction, error)
 	p.Ret(g.Action)
 
 	return p.Assemble()
+}
+
+// assembleChecks validates the syscalls of the group and appends their checks to the program.
+// The checks jump to the returned label on a match and continue with the next instruction otherwise.
+func (g *SyscallGroup) assembleChecks(p *Program) (Label, error) {
+	// Validate the syscalls.
+	syscalls, err := g.toSyscallsWithConditions()
+	if err != nil {
+		return 0, err
+	}
+
+	action := p.NewLabel()
+	for _, syscall := range syscalls {
+		syscall.Assemble(p, action)
+	}
+	return action, nil
 }
 
 func (s SyscallWithConditions) Assemble(p *Program, action Label) {
